@@ -241,6 +241,26 @@ def run(rep: Report, tier: str) -> None:
     # ---- R30.5 a Number reaches its DECIMAL(w,s) column from decimal TEXT, never through a binary-float -> DECIMAL cast ----
     rep.rule("R30.5", "loaders: a Number column is converted to the configured DECIMAL type from text (CSV field / VARCHAR rendering), never cast from a binary float")
     _number_load_paths(P, rep)
+    # ---- R30.6 Number values reach the DECIMAL column from their written form: no pandas / numpy float conversion on the load path ----
+    rep.rule("R30.6", "the loaders never push Number data through a binary float on the Python side (pd.to_numeric / astype(float) / np.float64): values needing more than ~15 digits are stored exactly")
+    n6 = 0
+    FLOATERS = {"to_numeric", "float64", "float32", "to_numpy"}
+    for f6 in P.iter_functions():
+        if not f6.module.name.startswith("vtlengine.duckdb_transpiler.io"):
+            continue
+        n6 += 1
+        for c6 in walk_no_nested(f6.node):
+            if not isinstance(c6, ast.Call):
+                continue
+            nm = src(c6.func).split(".")[-1]
+            bad = nm in FLOATERS or (nm == "astype" and c6.args and ("float" in src(c6.args[0]).lower() or "double" in src(c6.args[0]).lower())) \
+                or (nm == "float" and isinstance(c6.func, ast.Name) and c6.args and not isinstance(c6.args[0], ast.Constant))
+            if bad:
+                rep.add(Finding("R30.6", f"R30.6/float-conversion/{f6.qualname}/{nm}", f6.module.rel, c6.lineno, f6.qualname,
+                                f"`{src(c6)[:80]}` converts input data to binary floating point on the load path: a Number written with more digits than a double holds "
+                                f"(100000000000000000.1234567890) reaches the DECIMAL column rounded, although the configured precision could store it"))
+    rep.instance("R30.6", "loader-functions-scanned", nontrivial=False, sample={"functions": n6})
+    rep.floor("R30.6 loader functions", n6, 10)
     rep.assumptions = ["DuckDB typing rule DECIMAL(w,s) requires s ≤ w ≤ 38 (external fact)",
                        "os.getenv / os.environ.get modelled as a mapping lookup returning the string value or the default"]
 
